@@ -25,7 +25,10 @@ import (
 	"github.com/tucats/ego/internal/verifh/vh"
 )
 
-const keyDebugTry = "debug:try-block-abandoned-at-first-statement"
+const (
+	keyDebugTry   = "debug:try-block-abandoned-at-first-statement"
+	keyDebugPanic = "debug:unhandled-panic-result-dropped"
+)
 
 var tryRE = regexp.MustCompile(`\btry\b`)
 
@@ -53,6 +56,37 @@ func main() {
 	} catch (e) {
 		fmt.Println("caught", e)
 	}
+}
+`},
+	{ID: "panic/unhandled", Key: keyDebugPanic, Src: `package main
+
+import "fmt"
+
+func main() {
+	fmt.Println("before")
+	panic("k1")
+	fmt.Println("after")
+}
+`},
+	{ID: "panic/recovered", Key: "diag:panic-recovered", Src: `package main
+
+import "fmt"
+
+func safe(n int) (r int) {
+	defer func() {
+		if e := recover(); e != nil {
+			fmt.Println("recovered", e)
+			r = -1
+		}
+	}()
+	if n > 1 {
+		panic("too big")
+	}
+	return n
+}
+
+func main() {
+	fmt.Println(safe(1), safe(5))
 }
 `},
 	{ID: "calls/recursion-defer", Key: "diag:calls-recursion-defer", Src: `import "fmt"
@@ -262,6 +296,13 @@ func c12Programs(t *testing.T, r *vh.Report, programs []progCase, cfg egorun.Con
 				continue
 			}
 
+			// likewise (debugger, program that ends in an unhandled panic)
+			if d == diagDebug && avoid[keyDebugPanic] && p.Origin != "directed" && strings.HasPrefix(plain.Err, "unhandled panic") {
+				r.Count("skipped.debug-x-unhandled-panic.known-finding", 1)
+
+				continue
+			}
+
 			got := outcomeOf(RunProg(p.Src, cfg, d))
 			obs := lastDiag
 
@@ -306,7 +347,7 @@ func c12Programs(t *testing.T, r *vh.Report, programs []progCase, cfg egorun.Con
 			}
 
 			key := p.Key
-			if key == "" || (p.Key == keyDebugTry && d != diagDebug) {
+			if key == "" || (strings.HasPrefix(p.Key, "debug:") && d != diagDebug) {
 				key = "gen:" + d.String() + ":" + symptom(plain, got)
 			}
 
@@ -494,11 +535,15 @@ func TestC12CLI(t *testing.T) {
 	cfg := cliDefaults("dynamic", 0)
 
 	for i, p := range programs {
-		file := fmt.Sprintf("p%d.ego", i)
-		_ = os.WriteFile(filepath.Join(dir, file), []byte(p.Src), 0o644)
+		// every program is verif.ego in a directory of its own: the file name appears in
+		// call-frame listings, and the in-process runner calls its source verif.ego
+		file := "verif.ego"
+		pdir := filepath.Join(dir, fmt.Sprintf("p%d", i))
+		_ = os.MkdirAll(pdir, 0o755)
+		_ = os.WriteFile(filepath.Join(pdir, file), []byte(p.Src), 0o644)
 
-		plain := runEgo(bin, home, dir, "", "run", file)
-		plain2 := runEgo(bin, home, dir, "", "run", file)
+		plain := runEgo(bin, home, pdir, "", "run", file)
+		plain2 := runEgo(bin, home, pdir, "", "run", file)
 		r.Count("cli.runs", 2)
 
 		if plain != plain2 {
@@ -520,7 +565,7 @@ func TestC12CLI(t *testing.T) {
 			r.Probe(p.Key)
 		}
 
-		logf := filepath.Join(dir, fmt.Sprintf("p%d.log", i))
+		logf := filepath.Join(pdir, "ego.log")
 
 		variants := []struct {
 			name  string
@@ -544,7 +589,13 @@ func TestC12CLI(t *testing.T) {
 				continue
 			}
 
-			got := runEgo(bin, home, dir, v.stdin, v.args...)
+			if v.name == "debug" && avoid[keyDebugPanic] && p.Origin != "directed" && strings.Contains(plain.errOut, "unhandled panic") {
+				r.Count("skipped.debug-x-unhandled-panic.known-finding", 1)
+
+				continue
+			}
+
+			got := runEgo(bin, home, pdir, v.stdin, v.args...)
 			r.Count("cli.runs", 1)
 			r.Count("cli.runs."+v.name, 1)
 
@@ -570,7 +621,7 @@ func TestC12CLI(t *testing.T) {
 			}
 
 			key := p.Key
-			if key == "" || (p.Key == keyDebugTry && v.name != "debug") {
+			if key == "" || (strings.HasPrefix(p.Key, "debug:") && v.name != "debug") {
 				key = "cli:" + v.name + ":" + symptom(outcome{Out: plain.out, Err: lastErrLine(plain.errOut)}, outcome{Out: cleaned, Err: lastErrLine(got.errOut)})
 			}
 
